@@ -184,6 +184,12 @@ func (f *Frame) instTsub(fn *types.Func, call *ast.CallExpr, recvT types.Type) m
 // invoke dispatches on the callee's kind.
 func (f *Frame) invoke(st *State, fi *FuncInfo, args []Term, tsub map[*types.TypeParam]types.Type, pos token.Pos) []Term {
 	vc := f.vc
+	// while aspect A of a function is verified, a callee that has an aspect-A contract is called through it
+	if vc.fi != nil && vc.fi.Aspect != "" && fi.Aspect == "" {
+		if a, ok := fi.Aspects[vc.fi.Aspect]; ok && a.Kind == KContract {
+			fi = a
+		}
+	}
 	switch fi.Kind {
 	case KContract:
 		if f.spec && len(f.bound) > 0 && fi.Decl != nil && fi.Decl.Body != nil {
